@@ -489,6 +489,18 @@ def r10_rule_functions_cannot_raise_foreign(chk):
     chk.floor('C11.R10', 150, 'rule functions of lexer and parser')
 
 
+
+def r11_class_tables_not_mutated(chk):
+    """dialect classes and code generators derive tables from each other: a derived table must be a copy"""
+    common.no_mutation_of_class_tables_through_aliases(chk, 'C11.R11', sorted(r for r in chk.model.modules if r.startswith(('pysmi/lexer/', 'pysmi/parser/', 'pysmi/codegen/', 'pysmi/compiler.py'))), floor=4)
+
+
+
+def r12_format_arity(chk):
+    """error messages of lexer and parser"""
+    common.format_arity(chk, 'C11.R12', ['pysmi/parser/smi.py', 'pysmi/lexer/smi.py'], floor=10)
+
+
 RULES = [r1_located_package_errors, r2_state_totality, r3_progress_and_token_types, r4_line_accounting, r5_p_error,
          r6_parse_result, r7_numeric_conversion, r8_actions_cannot_raise_typeerror, r9_number_classifier,
-         r10_token_rules_return_the_token, r10_rule_functions_cannot_raise_foreign]
+         r10_token_rules_return_the_token, r10_rule_functions_cannot_raise_foreign, r11_class_tables_not_mutated, r12_format_arity]
